@@ -40,6 +40,11 @@ Ltac minv H :=
   | _ => idtac
   end.
 
+(** One bind at a time, with chosen names: [H : bind m k s = (s', Ok b)] becomes
+    [H1 : m s = (s1, Ok a1)] and [H : k a1 s1 = (s', Ok b)]. *)
+Tactic Notation "mstep" hyp(H) "as" ident(s1) ident(a1) ident(H1) :=
+  apply bind_ok in H; destruct H as (s1 & a1 & H1 & H).
+
 (** * Key equalities *)
 Lemma token_eqb_spec : forall a b, token_eqb a b = true <-> a = b.
 Proof. intros [] []; simpl; split; intros; congruence. Qed.
@@ -73,6 +78,7 @@ Record bal_updated (t : token) (a : addr) (n : Z) (s s' : state) : Prop := {
   bu_bal : forall t' x, balf s' t' x = if token_eqb t t' && addr_eqb x a then n else balf s t' x;
   bu_wf : wfb s -> wfb s';
   bu_sum : wfb s -> forall t', sumb s' t' = if token_eqb t t' then sumb s t - balf s t a + n else sumb s t';
+  bu_other : forall t', t' <> t -> bmap s' t' = bmap s t';
   bu_allow : forall t', almap s' t' = almap s t';
   bu_offs : offs s' = offs s
 }.
@@ -80,6 +86,7 @@ Record bal_updated (t : token) (a : addr) (n : Z) (s s' : state) : Prop := {
 Record allow_updated (t : token) (o sp : addr) (n : Z) (s s' : state) : Prop := {
   au_allow : forall t' o' sp', allowf s' t' o' sp' =
      if token_eqb t t' && pair_eqb (o', sp') (o, sp) then n else allowf s t' o' sp';
+  au_other : forall t', t' <> t -> almap s' t' = almap s t';
   au_bal : forall t', bmap s' t' = bmap s t';
   au_offs : offs s' = offs s
 }.
@@ -100,6 +107,7 @@ Proof.
   - intros H t'. pose proof (H ONT) as H1. pose proof (H ONG) as H2. simpl in H1, H2.
     unfold sumb, balf. destruct t, t'; simpl; auto;
       apply asum_aput; assumption.
+  - intros t' Hn. destruct t, t'; try reflexivity; congruence.
   - intros t'. destruct t, t'; reflexivity.
   - destruct t; reflexivity.
 Qed.
@@ -115,6 +123,7 @@ Proof.
   - intros H t'. pose proof (H ONT) as H1. pose proof (H ONG) as H2. simpl in H1, H2.
     unfold sumb, balf. destruct t, t'; simpl; auto;
       rewrite (asum_adel addr_eqb addr_eqb_spec) by assumption; lia.
+  - intros t' Hn. destruct t, t'; try reflexivity; congruence.
   - intros t'. destruct t, t'; reflexivity.
   - destruct t; reflexivity.
 Qed.
@@ -125,6 +134,7 @@ Proof.
   intros. constructor.
   - intros t' o' sp'. unfold allowf. destruct t, t'; simpl; try reflexivity;
       rewrite (getd_aput pair_eqb pair_eqb_spec); reflexivity.
+  - intros t' Hn. destruct t, t'; try reflexivity; congruence.
   - intros t'. destruct t, t'; reflexivity.
   - destruct t; reflexivity.
 Qed.
@@ -135,6 +145,7 @@ Proof.
   intros. constructor.
   - intros t' o' sp'. unfold allowf. destruct t, t'; simpl; try reflexivity;
       rewrite (getd_adel pair_eqb pair_eqb_spec); reflexivity.
+  - intros t' Hn. destruct t, t'; try reflexivity; congruence.
   - intros t'. destruct t, t'; reflexivity.
   - destruct t; reflexivity.
 Qed.
@@ -166,13 +177,6 @@ Proof. intros s s' H t o sp. unfold allowf. rewrite H. reflexivity. Qed.
 
 (** * Invariant and step summaries *)
 
-(** Keys of each balance map are unique; every balance and allowance read is >= 0. *)
-Record inv (s : state) : Prop := {
-  inv_wf : wfb s;
-  inv_bal : forall t a, 0 <= balf s t a;
-  inv_allow : forall t o sp, 0 <= allowf s t o sp
-}.
-
 (** [summ J JA s s']: from an invariant state, s' is again invariant, both token sums are
     unchanged, a balance decreased only for (token, holder) in J and an allowance increased only
     for (token, owner) in JA. *)
@@ -198,7 +202,7 @@ Proof.
   - intros t a Hlt. destruct (Z_lt_le_dec (balf s2 t a) (balf s1 t a)); [eapply B12; eauto|].
     eapply B23. lia.
   - intros t o sp Hlt. destruct (Z_lt_le_dec (allowf s1 t o sp) (allowf s2 t o sp)); [eapply A12; eauto|].
-    eapply A23. lia.
+    apply (A23 t o sp). lia.
 Qed.
 
 Lemma summ_weaken : forall (J JA J' JA' : token -> addr -> Prop) s s',
@@ -224,7 +228,7 @@ Qed.
 Lemma allow_updated_summ : forall t o sp n s s',
   allow_updated t o sp n s s' -> 0 <= n -> summ none (only t o) s s'.
 Proof.
-  intros t o sp n s s' [Ha Hb Ho] Hn [W B A]. split; [constructor|split; [|split]].
+  intros t o sp n s s' [Ha Hx Hb Ho] Hn [W B A]. split; [constructor|split; [|split]].
   - eapply wfb_same; eauto.
   - intros. rewrite (balf_same _ _ Hb). auto.
   - intros t' o' sp'. rewrite Ha. destruct (token_eqb t t' && pair_eqb (o', sp') (o, sp)); auto.
@@ -239,7 +243,7 @@ Qed.
 Lemma allow_lowered_summ : forall t o sp n s s',
   allow_updated t o sp n s s' -> 0 <= n <= allowf s t o sp -> summ none none s s'.
 Proof.
-  intros t o sp n s s' [Ha Hb Ho] Hn [W B A]. split; [constructor|split; [|split]].
+  intros t o sp n s s' [Ha Hx Hb Ho] Hn [W B A]. split; [constructor|split; [|split]].
   - eapply wfb_same; eauto.
   - intros. rewrite (balf_same _ _ Hb). auto.
   - intros t' o' sp'. rewrite Ha. destruct (token_eqb t t' && pair_eqb (o', sp') (o, sp)); auto. lia.
@@ -249,3 +253,369 @@ Proof.
     destruct (token_eqb t t') eqn:E1, (pair_eqb (o', sp') (o, sp)) eqn:E2; simpl; try lia.
     beq. inversion E2; subst. lia.
 Qed.
+
+(** * Constants (Gen/TokenConsts.v) *)
+Lemma tk_scale_pos : 0 < tk_scale.
+Proof. reflexivity. Qed.
+
+Lemma to_v2_nonneg : forall v2 value, decode_ok v2 value = true -> 0 <= to_v2 v2 value.
+Proof.
+  intros v2 value H. unfold decode_ok, to_v2 in *. pose proof tk_scale_pos.
+  destruct v2.
+  - apply Z.leb_le in H. exact H.
+  - apply andb_true_iff in H. destruct H as [H _]. apply Z.leb_le in H. nia.
+Qed.
+
+(** * Balance primitives *)
+Lemma reduce_ok : forall t a v s s' b,
+  reduce_from_balance t a v s = (s', Ok b) ->
+  b = balf s t a /\ v <= b /\ bal_updated t a (b - v) s s'.
+Proof.
+  intros t a v s s' b H. unfold reduce_from_balance in H. minv H.
+  apply negb_true_iff, Z.ltb_ge in H. split; [reflexivity|]. split; [exact H|].
+  match goal with H : (if ?c then _ else _) _ = _ |- _ => destruct c eqn:E end.
+  - apply Z.eqb_eq in E. rewrite E. eapply del_bal_ok; eauto.
+  - eapply put_bal_ok; eauto.
+Qed.
+
+Lemma increase_ok : forall t a v s s' b,
+  increase_to_balance t a v s = (s', Ok b) ->
+  b = balf s t a /\ bal_updated t a (b + v) s s'.
+Proof.
+  intros t a v s s' b H. unfold increase_to_balance in H. minv H.
+  split; [reflexivity|]. eapply put_bal_ok; eauto.
+Qed.
+
+Lemma from_approve_ok : forall t o sp v s s' u,
+  from_approve t o sp v s = (s', Ok u) ->
+  v <= allowf s t o sp /\ allow_updated t o sp (allowf s t o sp - v) s s'.
+Proof.
+  intros t o sp v s s' u H. unfold from_approve in H. minv H.
+  apply negb_true_iff, Z.ltb_ge in H. split; [exact H|].
+  match goal with H : (if ?c then _ else _) _ = _ |- _ => destruct c eqn:E end.
+  - apply Z.eqb_eq in E. rewrite E. eapply del_allow_ok; eauto.
+  - eapply put_allow_ok; eauto.
+Qed.
+
+(** A debit of [v] from [from] followed by a credit of [v] to [to] (the body shared by Transfer
+    and TransferedFrom). *)
+Record moved (t : token) (from to : addr) (v : Z) (s s' : state) : Prop := {
+  mv_summ : summ (only t from) none s s';
+  mv_low : balf s t from - v <= balf s' t from;
+  mv_exact : from <> to -> balf s' t from = balf s t from - v;
+  mv_self : from = to -> balf s' t from = balf s t from;
+  mv_other : forall t', t' <> t -> bmap s' t' = bmap s t';
+  mv_allow : forall t', almap s' t' = almap s t';
+  mv_offs : offs s' = offs s
+}.
+
+Lemma debit_credit_moved : forall t from to v s s1 s' b1 b2,
+  0 <= v ->
+  reduce_from_balance t from v s = (s1, Ok b1) ->
+  increase_to_balance t to v s1 = (s', Ok b2) ->
+  moved t from to v s s'.
+Proof.
+  intros t from to v s s1 s' b1 b2 Hv H1 H2.
+  apply reduce_ok in H1. destruct H1 as (-> & Hle & U1).
+  apply increase_ok in H2. destruct H2 as (-> & U2).
+  destruct U1 as [B1 W1 S1 O1 A1 F1]. destruct U2 as [B2 W2 S2 O2 A2 F2].
+  constructor.
+  - intros [W B A]. split; [constructor|split; [|split]].
+    + auto.
+    + intros t' x. rewrite B2, !B1. pose proof (B t' x). pose proof (B t from). pose proof (B t to).
+      destruct (token_eqb t t') eqn:E1, (addr_eqb x to) eqn:E2, (addr_eqb x from) eqn:E3,
+        (addr_eqb to from) eqn:E4; simpl; beq; subst; rewrite ?token_eqb_refl; simpl; try lia.
+    + intros t' o sp. unfold allowf. rewrite A2, A1. apply A.
+    + intros t'. rewrite (S2 (W1 W) t'). destruct (token_eqb t t') eqn:E1.
+      * beq; subst t'. rewrite (S1 W t), token_eqb_refl.
+        destruct (addr_eqb to from) eqn:E; lia.
+      * rewrite (S1 W t'), E1. reflexivity.
+    + intros t' x. rewrite B2, !B1. pose proof (B t' x). pose proof (B t from). pose proof (B t to).
+      destruct (token_eqb t t') eqn:E1, (addr_eqb x to) eqn:E2, (addr_eqb x from) eqn:E3,
+        (addr_eqb to from) eqn:E4; simpl; beq; subst; rewrite ?token_eqb_refl; simpl;
+        try lia; intros; split; reflexivity.
+    + intros t' o sp. unfold allowf. rewrite A2, A1. lia.
+  - rewrite B2, !B1. rewrite token_eqb_refl, addr_eqb_refl. simpl.
+    destruct (addr_eqb from to) eqn:E, (addr_eqb to from) eqn:E'; simpl; beq; subst; try lia; congruence.
+  - intros Hne. rewrite B2, !B1. rewrite token_eqb_refl, addr_eqb_refl. simpl.
+    destruct (addr_eqb from to) eqn:E; [beq; contradiction|]. reflexivity.
+  - intros <-. rewrite B2, !B1. rewrite token_eqb_refl, addr_eqb_refl. simpl. lia.
+  - intros t' Hn. rewrite O2, O1 by assumption. reflexivity.
+  - intros t'. rewrite A2, A1. reflexivity.
+  - rewrite F2, F1. reflexivity.
+Qed.
+
+Section Specs.
+  Variable unbind : Z -> Z -> Z -> Z.
+  Variable deadline : Z.
+
+  (** ** Transfer *)
+  Lemma transfer_ok : forall c t from to v s s' r,
+    0 <= v ->
+    transfer c t from to v s = (s', Ok r) ->
+    check_witness c from = true /\ moved t from to v s s'.
+  Proof.
+    intros c t from to v s s' r Hv H. unfold transfer in H. minv H.
+    split; [assumption|]. eapply debit_credit_moved; eauto.
+  Qed.
+
+  (** ** TransferedFrom *)
+
+  (** Who may spend: the spender witnessed the call, or (after the holder deadline) the ONT
+      contract pays a holder its own approved ONG. *)
+  Definition spender_ok (c : callctx) (sender from to : addr) : Prop :=
+    check_witness c sender = true
+    \/ (check_witness c tk_ont_addr = true /\ sender = to /\ from = tk_ont_addr).
+
+  Record spent (t : token) (sender from to : addr) (v : Z) (s s' : state) : Prop := {
+    sp_le : v <= allowf s t from sender;
+    sp_allow : forall t' o sp, allowf s' t' o sp =
+       if token_eqb t t' && pair_eqb (o, sp) (from, sender) then allowf s t from sender - v else allowf s t' o sp;
+    sp_summ : summ (only t from) none s s';
+    sp_low : balf s t from - v <= balf s' t from;
+    sp_exact : from <> to -> balf s' t from = balf s t from - v;
+    sp_self : from = to -> balf s' t from = balf s t from;
+    sp_other : forall t', t' <> t -> bmap s' t' = bmap s t';
+    sp_aother : forall t', t' <> t -> almap s' t' = almap s t';
+    sp_offs : offs s' = offs s
+  }.
+
+  Lemma transfered_from_ok : forall c t sender from to v s s' r,
+    0 <= v ->
+    transfered_from deadline c t sender from to v s = (s', Ok r) ->
+    spender_ok c sender from to /\ spent t sender from to v s s'.
+  Proof.
+    intros c t sender from to v s s' r Hv H. unfold transfered_from in H.
+    mstep H as s0 u0 Hg. mstep H as s1 u1 Hf. mstep H as s2 b1 Hr. mstep H as s3 b2 Hi. minv H.
+    assert (Hauth : spender_ok c sender from to /\ s0 = s).
+    { unfold spender_ok. destruct (now c <=? (deadline + tk_genesis_ts) mod two32); minv Hg.
+      - auto.
+      - split; [|reflexivity].
+        match goal with H : negb _ = true |- _ =>
+          rewrite negb_true_iff, andb_false_iff, !negb_false_iff in H; destruct H as [H|H] end.
+        + right. rewrite !andb_true_iff in H. destruct H as ((Ha & Hb) & Hc). beq. auto.
+        + left. assumption. }
+    destruct Hauth as (Hauth & ->). split; [exact Hauth|].
+    apply from_approve_ok in Hf. destruct Hf as (Hle & Au).
+    pose proof (debit_credit_moved _ _ _ _ _ _ _ _ _ Hv Hr Hi) as [Ms Ml Me Mself Mo Ma Mf].
+    assert (Hlow : summ none none s s1).
+    { eapply allow_lowered_summ; [exact Au|lia]. }
+    destruct Au as [Aa Ax Ab Ao].
+    assert (Hb1 : forall t' x, balf s1 t' x = balf s t' x) by (apply balf_same; exact Ab).
+    constructor.
+    - exact Hle.
+    - intros t' o sp. unfold allowf at 1. rewrite Ma. apply Aa.
+    - eapply summ_trans; [|exact Ms].
+      eapply summ_weaken; [| |exact Hlow]; unfold none; tauto.
+    - rewrite <- Hb1. exact Ml.
+    - intros Hne. rewrite <- Hb1. auto.
+    - intros He. rewrite <- Hb1. auto.
+    - intros t' Hn. rewrite Mo by assumption. apply Ab.
+    - intros t' Hn. rewrite Ma. apply Ax. assumption.
+    - rewrite Mf. exact Ao.
+  Qed.
+
+  (** ** ONG contract *)
+
+  (** Only ONG storage changed. *)
+  Definition frame_ong (s s' : state) : Prop :=
+    bmap s' ONT = bmap s ONT /\ almap s' ONT = almap s ONT /\ offs s' = offs s.
+  Lemma frame_ong_refl : forall s, frame_ong s s.
+  Proof. intros; repeat split. Qed.
+  Lemma frame_ong_trans : forall s1 s2 s3, frame_ong s1 s2 -> frame_ong s2 s3 -> frame_ong s1 s3.
+  Proof. intros s1 s2 s3 (A & B & C) (A' & B' & C'). repeat split; congruence. Qed.
+
+  (** (token, holder) pairs whose debit the context witnesses. *)
+  Definition witnessed (c : callctx) (t : token) : token -> addr -> Prop :=
+    fun t' a => t' = t /\ check_witness c a = true.
+
+  Lemma moved_frame_ong : forall from to v s s', moved ONG from to v s s' -> frame_ong s s'.
+  Proof.
+    intros from to v s s' [_ _ _ _ Mo Ma Mf]. repeat split; auto. apply Mo. discriminate.
+  Qed.
+
+  Lemma ong_do_transfer_ok : forall c l s s' r,
+    Forall (fun x => 0 <= snd x) l ->
+    ong_do_transfer c l s = (s', Ok r) ->
+    summ (witnessed c ONG) none s s' /\ frame_ong s s' /\ almap s' ONG = almap s ONG.
+  Proof.
+    intros c l. induction l as [|[[from to] value] l IH]; intros s s' r Hl H; simpl in H.
+    - minv H. split; [apply summ_refl|]. split; [apply frame_ong_refl|reflexivity].
+    - inversion Hl as [|? ? Hv Hl']; subst. simpl in Hv.
+      destruct (value =? 0) eqn:E; [eauto|].
+      mstep H as s0 u0 Hg. minv Hg. mstep H as s1 u1 Ht.
+      apply transfer_ok in Ht; [|assumption]. destruct Ht as (Hw & Mv).
+      destruct (IH _ _ _ Hl' H) as (S2 & F2 & A2).
+      split; [|split].
+      + eapply summ_trans; [|exact S2].
+        eapply summ_weaken; [| |exact (mv_summ _ _ _ _ _ _ Mv)]; [|tauto].
+        intros t a (-> & ->). split; auto.
+      + eapply frame_ong_trans; [|exact F2]. eapply moved_frame_ong; eauto.
+      + rewrite A2. apply (mv_allow _ _ _ _ _ _ Mv).
+  Qed.
+
+  Lemma ong_do_approve_ok : forall c from to v s s' r,
+    0 <= v ->
+    ong_do_approve c from to v s = (s', Ok r) ->
+    check_witness c from = true /\ summ none (only ONG from) s s' /\ frame_ong s s'
+    /\ bmap s' ONG = bmap s ONG.
+  Proof.
+    intros c from to v s s' r Hv H. unfold ong_do_approve in H.
+    mstep H as s0 u0 Hg. minv Hg. mstep H as s1 u1 Hw. minv Hw. mstep H as s2 u2 Hp. minv H.
+    apply put_allow_ok in Hp.
+    split; [assumption|]. split; [eapply allow_updated_summ; eauto|].
+    destruct Hp as [Aa Ax Ab Ao]. split; [|apply Ab].
+    split; [apply Ab|]. split; [|exact Ao]. apply Ax. discriminate.
+  Qed.
+
+  Lemma spent_frame_ong : forall sender from to v s s', spent ONG sender from to v s s' -> frame_ong s s'.
+  Proof.
+    intros sender from to v s s' H. destruct H. repeat split; auto.
+    - apply sp_other0. discriminate.
+    - apply sp_aother0. discriminate.
+  Qed.
+
+  Lemma ong_do_transfer_from_ok : forall c sender from to v s s' r,
+    0 <= v ->
+    ong_do_transfer_from deadline c sender from to v s = (s', Ok r) ->
+    (r = false /\ s' = s)
+    \/ (r = true /\ spender_ok c sender from to /\ spent ONG sender from to v s s').
+  Proof.
+    intros c sender from to v s s' r Hv H. unfold ong_do_transfer_from in H.
+    destruct (v =? 0).
+    - minv H. left. auto.
+    - mstep H as s0 u0 Hg. minv Hg. mstep H as s1 u1 Ht. minv H.
+      apply transfered_from_ok in Ht; [|assumption]. right. tauto.
+  Qed.
+
+  (** What one ONG call may do, for any calling context. *)
+  Definition ong_effect (c : callctx) (o : op) (s s' : state) : Prop :=
+    frame_ong s s' /\
+    match o with
+    | Transfer _ _ => summ (witnessed c ONG) none s s' /\ almap s' ONG = almap s ONG
+    | Approve _ from _ _ =>
+        check_witness c from = true /\ summ none (only ONG from) s s' /\ bmap s' ONG = bmap s ONG
+    | TransferFrom v2 sender from to value =>
+        s' = s \/ (spender_ok c sender from to /\ spent ONG sender from to (to_v2 v2 value) s s')
+    end.
+
+  Lemma decode_states_ok : forall v2 l s s' sts,
+    decode_states v2 l s = (s', Ok sts) -> s' = s /\ Forall (fun x => 0 <= snd x) sts.
+  Proof.
+    intros v2 l s s' sts H. unfold decode_states in H. mstep H as s0 u0 Hg. minv Hg. minv H.
+    split; [reflexivity|]. rewrite forallb_forall in H0. apply Forall_forall.
+    intros x Hx. apply in_map_iff in Hx. destruct Hx as ([f t v] & <- & Hin). simpl.
+    apply to_v2_nonneg. apply (H0 _ Hin).
+  Qed.
+
+  Lemma ong_invoke_ok : forall c o s s' r,
+    ong_invoke deadline c o s = (s', Ok r) -> ong_effect c o s s'.
+  Proof.
+    intros c o s s' r H. destruct o as [v2 l|v2 from to value|v2 sender from to value]; simpl in H.
+    - mstep H as s0 u0 Hg. minv Hg. mstep H as s1 sts Hd.
+      apply decode_states_ok in Hd. destruct Hd as (-> & Hnn).
+      apply ong_do_transfer_ok in H; [|assumption]. unfold ong_effect. tauto.
+    - mstep H as s0 u0 Hg. minv Hg. mstep H as s1 u1 Hd. minv Hd.
+      apply ong_do_approve_ok in H; [|apply to_v2_nonneg; assumption]. unfold ong_effect. tauto.
+    - mstep H as s0 u0 Hg. minv Hg. mstep H as s1 u1 Hd. minv Hd.
+      apply ong_do_transfer_from_ok in H; [|apply to_v2_nonneg; assumption].
+      unfold ong_effect. destruct H as [(_ & ->)|(_ & Ha & Hs)].
+      + split; [apply frame_ong_refl|]. left. reflexivity.
+      + split; [eapply spent_frame_ong; eauto|]. right. auto.
+  Qed.
+
+  (** ** grantOng *)
+
+  (** The ONT contract's ONG pool: the only ONG balance a grant may debit and the only owner
+      whose ONG allowances it may raise. *)
+  Definition pool : token -> addr -> Prop := only ONG tk_ont_addr.
+
+  (** Only ONT balances / ONT allowances are untouched. *)
+  Definition frame_grant (s s' : state) : Prop :=
+    bmap s' ONT = bmap s ONT /\ almap s' ONT = almap s ONT.
+  Lemma frame_grant_refl : forall s, frame_grant s s.
+  Proof. intros; split; reflexivity. Qed.
+  Lemma frame_grant_trans : forall s1 s2 s3, frame_grant s1 s2 -> frame_grant s2 s3 -> frame_grant s1 s3.
+  Proof. intros s1 s2 s3 (A & B) (A' & B'). split; congruence. Qed.
+  Lemma frame_ong_grant : forall s s', frame_ong s s' -> frame_grant s s'.
+  Proof. intros s s' (A & B & C). split; assumption. Qed.
+
+  Lemma pool_approve : forall c v2 a x s s' r,
+    ong_invoke deadline (from_ont c) (Approve v2 tk_ont_addr a x) s = (s', Ok r) ->
+    summ pool pool s s' /\ frame_grant s s'.
+  Proof.
+    intros c v2 a x s s' r H. apply ong_invoke_ok in H. destruct H as (F & _ & S & _).
+    split; [|apply frame_ong_grant; assumption].
+    eapply summ_weaken; [| |exact S]; unfold none, pool; tauto.
+  Qed.
+
+  Lemma pool_transfer_from : forall c v2 a x s s' r,
+    ong_invoke deadline (from_ont c) (TransferFrom v2 a tk_ont_addr a x) s = (s', Ok r) ->
+    summ pool pool s s' /\ frame_grant s s'.
+  Proof.
+    intros c v2 a x s s' r H. apply ong_invoke_ok in H. destruct H as (F & [->|(_ & Sp)]).
+    - split; [apply summ_refl|apply frame_grant_refl].
+    - split; [|apply frame_ong_grant; assumption].
+      eapply summ_weaken; [| |exact (sp_summ _ _ _ _ _ _ _ Sp)]; unfold none, pool; tauto.
+  Qed.
+
+  Lemma must_integer64_ok : forall v s s' q, must_integer64 v s = (s', Ok q) -> s' = s.
+  Proof.
+    intros v s s' q H. unfold must_integer64 in H.
+    destruct ((0 <=? v / tk_scale) && (v / tk_scale <? two64)); minv H; reflexivity.
+  Qed.
+
+  Lemma grant_ong_ok : forall c a balance s s' u,
+    grant_ong unbind deadline c a balance s = (s', Ok u) ->
+    summ pool pool s s' /\ frame_grant s s'.
+  Proof.
+    intros c a balance s s' u H. unfold grant_ong in H.
+    mstep H as s0 start Hg. minv Hg.
+    destruct (now c <=? tk_genesis_ts).
+    { minv H. split; [apply summ_refl|apply frame_grant_refl]. }
+    destruct (now c - tk_genesis_ts <? offf s a).
+    { destruct (preexec c); minv H. split; [apply summ_refl|apply frame_grant_refl]. }
+    destruct (now c - tk_genesis_ts =? offf s a).
+    { minv H. split; [apply summ_refl|apply frame_grant_refl]. }
+    mstep H as s1 u1 Hb.
+    assert (Hmid : summ pool pool s s1 /\ frame_grant s s1).
+    { destruct (negb (balance =? 0)).
+      - mstep Hb as s2 sv Hsv. minv Hsv.
+        mstep Hb as s3 r3 Hap.
+        assert (Hap' : summ pool pool s s3 /\ frame_grant s s3).
+        { destruct (is_float _).
+          - eapply pool_approve; eauto.
+          - mstep Hap as s4 q Hq. apply must_integer64_ok in Hq. subst s4.
+            eapply pool_approve; eauto. }
+        clear Hap. destruct Hap' as (S1 & F1).
+        assert (Htf : summ pool pool s3 s1 /\ frame_grant s3 s1).
+        { destruct ((deadline <? now c - tk_genesis_ts) && negb (addr_eqb a tk_gov_addr)).
+          - mstep Hb as s5 r5 Htf. minv Hb.
+            destruct (is_float _).
+            + eapply pool_transfer_from; eauto.
+            + mstep Htf as s6 q Hq. apply must_integer64_ok in Hq. subst s6.
+              eapply pool_transfer_from; eauto.
+          - minv Hb. split; [apply summ_refl|apply frame_grant_refl]. }
+        destruct Htf as (S2 & F2).
+        split; [eapply summ_trans; eauto|eapply frame_grant_trans; eauto].
+      - minv Hb. split; [apply summ_refl|apply frame_grant_refl]. }
+    destruct Hmid as (S1 & F1).
+    apply put_off_ok in H.
+    split.
+    - eapply summ_trans; [exact S1|].
+      eapply summ_weaken; [| |apply off_updated_summ; exact H]; unfold none; tauto.
+    - eapply frame_grant_trans; [exact F1|]. destruct H as [Hb' Ha']. split; auto.
+  Qed.
+
+  Lemma grant_both_ok : forall c from to old s s' u,
+    grant_both unbind deadline c from to old s = (s', Ok u) ->
+    summ pool pool s s' /\ frame_grant s s'.
+  Proof.
+    intros c from to old s s' u H. unfold grant_both in H.
+    mstep H as s0 bf Hq. apply must_integer64_ok in Hq. subst s0.
+    mstep H as s1 u1 Hg1. apply grant_ong_ok in Hg1. destruct Hg1 as (S1 & F1).
+    mstep H as s2 bt Hq. apply must_integer64_ok in Hq. subst s2.
+    apply grant_ong_ok in H. destruct H as (S2 & F2).
+    split; [eapply summ_trans; eauto|eapply frame_grant_trans; eauto].
+  Qed.
+End Specs.
